@@ -122,6 +122,42 @@ def run_case(api, classes, t, ops, base=None, kwarg=False):
     return {"op": "opts", "t": t, "ops": ops, "init": init, "logical": logical, "files": files}, m2, m3
 
 
+def _subclass_child():
+    """(child process) A user-defined SUBCLASS of every option-bearing module class (helper methods only): each option assigned
+    alone on the subclass, saved stand-alone and in a project, loaded back.  Prints the `opts` events as JSON."""
+    import sys
+    from ..common import setup_repo_path
+    setup_repo_path()
+    import rv.api as api
+    import rv.modules
+    spec = json.load(sys.stdin)
+    events = []
+    for t in sorted(spec):
+        base = rv.modules.MODULE_CLASSES[t]
+        sub = type("My" + base.__name__, (base,), {"describe": lambda self: "%s with %d options" % (self.mtype, len(type(self).options))})
+        for o in spec[t]["opts"]:
+            if o["name"] == "user_defined_controllers":
+                continue
+            v = 1 if o["size"] == 1 else (o["max"] if o["hasmm"] else 2 ** o["size"] - 1)
+            try:
+                ev, _, _ = run_case(api, {t: sub}, t, [[o["name"], v]])
+            except Exception as ex:
+                ev = {"op": "opts", "t": t, "ops": [[o["name"], v]], "init": [], "logical": [], "files": [], "raised": type(ex).__name__}
+            events.append(ev)
+    json.dump(events, sys.stdout)
+
+
+def subclass_events(spec):
+    import subprocess
+    import sys
+    r = subprocess.run([sys.executable, "-c", "from rvverif.drivers.c11 import _subclass_child; _subclass_child()"],
+                       input=json.dumps(spec), capture_output=True, text=True, timeout=600)
+    if r.returncode != 0:
+        from ..common import MachineryError
+        raise MachineryError("subclass child failed: " + r.stderr[-800:])
+    return json.loads(r.stdout)
+
+
 def run(ctx):
     import rv.api as api
     import rv.modules
@@ -272,6 +308,9 @@ def run(ctx):
                 ek, _, _ = run_case(api, classes, t, [[pair[0], 1], [pair[1], 1]], kwarg=True)
                 events.append(ek)
                 ctx.count_case((t, "kwarg-pair", json.dumps(pair)), nontrivial=True)
+    for ev_ in subclass_events(spec):         # user-defined subclasses of the option-bearing classes (in an interpreter of their own)
+        events.append(ev_)
+        ctx.count_case(("subclass", ev_["t"], json.dumps(ev_["ops"])), nontrivial=True)
     traces = []
     per = 200
     for i in range(0, len(events), per):
